@@ -22,6 +22,8 @@ line: C04 hist <op> <op> ...          (TAB separated ops; objects are numbered i
   toba:<i>                    objs[i].tobitarray()        (kept as an external buffer)
   mut:<i>:<kind>              mutate objs[i] in place (invert append1 set0 reverse clear ilshift1 imul2 delall);
                               on an immutable object: try the same call, expect no change
+  mutobj:<d>:<kind>:<s>       mutate objs[d] in place with objs[s] as the operand (append iadd prepend insert0 overwrite0
+                              setslice01 ior)
   mutext:<k>:<kind>           mutate external buffer k
 out: ok <state after op 1> ; <state after op 2> ; …   state = objs|exts|cache, comma separated bit strings
 """
@@ -271,6 +273,12 @@ def execute(line):
                 elif kind == "memoryview":
                     e = bytearray(int(bits, 2).to_bytes(len(bits) // 8, "big")) if bits else bytearray()
                     src = memoryview(e)
+                elif kind == "memoryview_ro":
+                    e = bytearray(int(bits, 2).to_bytes(len(bits) // 8, "big")) if bits else bytearray()
+                    src = memoryview(e).toreadonly()
+                elif kind == "array_ro":
+                    e = _array.array("B", int(bits, 2).to_bytes(len(bits) // 8, "big") if bits else b"")
+                    src = memoryview(e).toreadonly()
                 elif kind.startswith("bytes_"):
                     e = bytearray(int(bits, 2).to_bytes(len(bits) // 8, "big")) if bits else bytearray()
                     src = None
@@ -302,12 +310,34 @@ def execute(line):
             elif k == "mut":
                 x, kind = objs[int(f[1])], f[2]
                 _mutate_obj(x, kind)
+            elif k == "mutobj":
+                x, kind, y = objs[int(f[1])], f[2], objs[int(f[3])]
+                try:
+                    if kind == "append":
+                        x.append(y)
+                    elif kind == "iadd":
+                        x.__iadd__(y)
+                    elif kind == "prepend":
+                        x.prepend(y)
+                    elif kind == "insert0":
+                        x.insert(y, 0)
+                    elif kind == "overwrite0":
+                        x.overwrite(y, 0)
+                    elif kind == "setslice01":
+                        x[0:1] = y
+                    elif kind == "ior":
+                        x.__ior__(y)
+                except Exception:
+                    pass
             elif k == "mutext":
                 _mutate_ext(exts[int(f[1])], f[2])
             else:
                 raise ValueError(op)
-        except (IndexError, KeyError) as e:
-            raise RuntimeError(f"bad history op {op}: {e!r}")
+        except Exception as e:                  # noqa: BLE001
+            # An operation of a well-formed history raised: on the clean tree this cannot happen (the generator only
+            # produces applicable operations), so it is itself an observation — report it and stop the history.
+            states.append(f"EXC {op} {type(e).__name__}")
+            break
         cache_vals = [wire(Bits("0b" + key)) for key in keys]
         states.append(",".join(wire(o) for o in objs) + "|" + ",".join(wire(_ext_bits(e)) for e in exts) + "|" + ",".join(cache_vals))
     return "ok " + " ; ".join(states), {"classes": [type(o).__name__ for o in objs]}
@@ -357,6 +387,20 @@ def _reference(ops):
             i = int(f[1])
             if classes[i] in MUTABLE:
                 objs[i] = _apply_kind_bits(objs[i], f[2])
+        elif k == "mutobj":
+            d, kind, o = int(f[1]), f[2], objs[int(f[3])]
+            if classes[d] in MUTABLE:
+                b = objs[d]
+                if kind in ("append", "iadd"):
+                    objs[d] = b + o
+                elif kind in ("prepend", "insert0"):
+                    objs[d] = o + b
+                elif kind == "overwrite0":
+                    objs[d] = o + b[len(o):]
+                elif kind == "setslice01":
+                    objs[d] = o + b[1:]
+                elif kind == "ior":
+                    objs[d] = "".join("1" if (p == "1" or q == "1") else "0" for p, q in zip(b, o)) if len(b) == len(o) else b
         elif k == "mutext":
             exts[int(f[1])] = _apply_kind_bits(exts[int(f[1])], f[2])
         states.append(",".join(wire(o) for o in objs) + "|" + ",".join(wire(e) for e in exts) + "|" + ",".join(wire(x) for x in keys))
@@ -435,7 +479,7 @@ def gen(rng, tier):
                         yield SEP.join(["C04", "hist", f"new:{cd}:0101", f"{ks}:{cs}:{bits}", "setbits:0:1", f"mut:0:{kind}", f"mut:1:{kind}",
                                         f"str:Bits:{bits}"])
         for c in CLASS_NAMES:
-            for ek in ("bitarray", "bytearray", "array", "memoryview"):
+            for ek in ("bitarray", "bytearray", "array", "memoryview", "memoryview_ro", "array_ro"):
                 b8 = (bits * 8)[:8 * max(1, len(bits) // 8)] if ek != "bitarray" else bits
                 for kind in (["invert", "set0"] if ek != "bitarray" else KINDS):
                     yield SEP.join(["C04", "hist", f"ext:{c}:{b8}:{ek}", f"mutext:0:{kind}", f"mut:0:{kind}", "toba:0", f"mutext:1:{kind}"])
@@ -449,6 +493,15 @@ def gen(rng, tier):
                                             f"mut:1:{kind}", f"str:Bits:{bits}"])
                             yield SEP.join(["C04", "hist", f"{kb}:{ca}:{bits}", f"new:{cb}:-", f"cat:{rc}:0:1:{v}", f"mut:2:{kind}",
                                             f"mut:0:{kind}", f"str:Bits:{bits}"])
+    # in-place mutators with another object as the operand: afterwards neither side may see the other's mutations
+    for cd in MUTABLE:
+        for cs in CLASS_NAMES:
+            for kd, vd in (("new", "-"), ("new", "0101"), ("str", "0101")):
+                for ks, vs in (("new", "110"), ("str", "110"), ("fromstring", "110"), ("new", "-")):
+                    for mk_ in ("append", "iadd", "prepend", "insert0", "overwrite0", "setslice01", "ior"):
+                        for kind in ("invert", "append1", "reverse"):
+                            yield SEP.join(["C04", "hist", f"{kd}:{cd}:{vd}", f"{ks}:{cs}:{vs}", f"mutobj:0:{mk_}:1", f"mut:0:{kind}", f"mut:1:{kind}",
+                                            f"obj:Bits:1", f"mutobj:0:{mk_}:1", f"mut:1:{kind}", f"mut:0:{kind}", f"str:Bits:{vs if vs != '-' else '1'}"])
     # value keywords / property assignment, then mutate, then build the same value again
     for dtype in ("uint", "int", "uintbe", "intbe", "uintle", "intle", "hex", "bin", "bytes"):
         for bits in ("00000101", "1111111100000001", "10000000"):
@@ -508,7 +561,7 @@ def gen(rng, tier):
                     vals[d] = vals[s_]
             elif r < 0.73:
                 c = rng.choice(CLASS_NAMES)
-                ek = rng.choice(["bitarray", "bytearray", "array", "memoryview", "bytes_kw", "bytes_off8", "bytes_len8", "bytes_off3"])
+                ek = rng.choice(["bitarray", "bytearray", "array", "memoryview", "memoryview_ro", "array_ro", "bytes_kw", "bytes_off8", "bytes_len8", "bytes_off3"])
                 bits = rand_bits(rng, 8 * rng.randint(2, 3)) if ek != "bitarray" else rand_bits(rng, rng.randint(1, 10))
                 win = {"bytes_off8": bits[8:], "bytes_len8": bits[:8], "bytes_off3": bits[3:]}.get(ek, bits)
                 ops.append(f"ext:{c}:{bits}:{ek}"); classes.append(c); vals.append(win); n_ext += 1
@@ -524,6 +577,15 @@ def gen(rng, tier):
                     dtype = rng.choice(["uint", "int", "hex", "bin", "bytes", "uintle"])
                     c = rng.choice(CLASS_NAMES)
                     ops.append(f"newkw:{c}:{dtype}:{bits}"); classes.append(c); vals.append(bits)
+            elif r < 0.79 and len(classes) >= 2:
+                d, s_ = rng.randrange(len(classes)), rng.randrange(len(classes))
+                mk_ = rng.choice(["append", "iadd", "prepend", "insert0", "overwrite0", "setslice01", "ior"])
+                ops.append(f"mutobj:{d}:{mk_}:{s_}")
+                if classes[d] in MUTABLE:
+                    b, o = vals[d], vals[s_]
+                    vals[d] = {"append": b + o, "iadd": b + o, "prepend": o + b, "insert0": o + b, "overwrite0": o + b[len(o):],
+                               "setslice01": o + b[1:],
+                               "ior": ("".join("1" if (p == "1" or q == "1") else "0" for p, q in zip(b, o)) if len(b) == len(o) else b)}[mk_]
             elif r < 0.8 and n_ext:
                 ops.append(f"mutext:{rng.randrange(n_ext)}:{rng.choice(['invert', 'set0'])}")
             else:
